@@ -4,6 +4,7 @@ import (
 	"fmt"
 	"net/url"
 	"strings"
+	"time"
 
 	. "verifharness/hlib"
 
@@ -266,11 +267,38 @@ func classify(ops []op, i int, impl string) string {
 }
 
 // ---- generators ----
-var patterns = []string{"/", "/a", "/a/", "/a/b", "/a/b/", "/a/b/c", "/a/b/c/", "/A/", "/A/B", "/b", "/b/", "/ab/", "/a/bc/",
+var patterns = []string{"/cam/", "/cam/hall/", "/cam/cam", "/ca/", "/", "/a", "/a/", "/a/b", "/a/b/", "/a/b/c", "/a/b/c/", "/A/", "/A/B", "/b", "/b/", "/ab/", "/a/bc/",
 	"a/", "a", " /a/ ", "/a//b/", "/a/./b/", "/a/../b/", "/a/b/..", "", "//", "/a /", "/a/b /", "/a/ b/", "/c/d/e/f/", "/x"}
 var urls = []string{"rtsp://h/x", "rtsp://h/x/", "rtsp://h", "rtsp://h/", "rtsp://h:554/live/", "http://u:p@h/q?x=1", "rtsp://h//", "/", "x", "", "",
 	"rtsp://h/%zz", ":bad", "rtsp://h/\x7f"}
 var segs = []string{"a", "b", "c", "A", "B", "ab", "bc", "d", "e", "f", "x", "..", ".", "", "a ", " b"}
+
+// a remainder made of the characters of the pattern it is appended to (a join that treats the
+// pattern as a character set, or compares lengths instead of prefixes, shows here): the pattern's
+// own segments again, permuted letters, a letter of the pattern followed by a foreign one
+func echoSeg(c *Ctx, p string) string {
+	r := c.Rng
+	var letters []byte
+	for i := 0; i < len(p); i++ {
+		if p[i] != '/' && p[i] != ' ' && p[i] != '.' {
+			letters = append(letters, p[i])
+		}
+	}
+	if len(letters) == 0 {
+		return segs[r.Intn(len(segs))]
+	}
+	var b []byte
+	for i, n := 0, 1+r.Intn(4); i < n; i++ {
+		b = append(b, letters[r.Intn(len(letters))])
+	}
+	switch r.Intn(4) {
+	case 0:
+		b = append(b, "1x9"[r.Intn(3)])
+	case 1:
+		b = append([]byte{"1x9"[r.Intn(3)]}, b...)
+	}
+	return string(b)
+}
 
 func genPath(c *Ctx, from []string) string {
 	r := c.Rng
@@ -280,8 +308,14 @@ func genPath(c *Ctx, from []string) string {
 		p = from[r.Intn(len(from))]
 		switch r.Intn(6) {
 		case 0:
-		case 1, 2:
+		case 1:
 			p = strings.TrimRight(p, " ") + segs[r.Intn(len(segs))]
+		case 2:
+			p = strings.TrimRight(p, " ")
+			p += echoSeg(c, p)
+			if r.Chance(30) {
+				p += "/" + echoSeg(c, p)
+			}
 		case 3:
 			p = strings.TrimRight(p, " ")
 			if !strings.HasSuffix(p, "/") {
@@ -444,8 +478,32 @@ func runC17(c *Ctx) {
 	outs := c.Drive(lines)
 	c.Res.Rule = "case = one history of route.Save/Del/Get/All/Match and media.GetOrCreate on the real global table (≥1 mutation, ≥2 lookups); " +
 		"distinct by the whole op line; non-trivial when at least one lookup resolves to a route"
+	blocked := ""
 	for i, ops := range cases {
-		impl := runImpl(c, ops)
+		if blocked != "" {
+			c.Count("case-not-run")
+			continue
+		}
+		// a lookup that never returns (a loop that does not end, a lock never released) must not hang the
+		// harness: after 60 s without an answer the case is given ten more minutes, then it is a finding
+		// (and the global route table, blocked by it, is not used any more)
+		done := make(chan []string, 1)
+		go func(ops []op) { done <- runImpl(c, ops) }(ops)
+		var impl []string
+		select {
+		case impl = <-done:
+		case <-time.After(60 * time.Second):
+			select {
+			case impl = <-done:
+				c.Count("slow-case-waited-for")
+			case <-time.After(600 * time.Second):
+				c.Find(Finding{Kind: "oracle", Class: "lookup-never-returns", Case: lines[i], Impl: "no answer within 660 s", Spec: strings.TrimPrefix(outs[i], "model="),
+					Detail: "a history of route.Save/Del/Match / media.GetOrCreate did not return"})
+				c.Note("the cases after " + lines[i] + " were not run: the route table is blocked")
+				blocked = lines[i]
+				continue
+			}
+		}
 		kv := KV(outs[i])
 		model := strings.Split(kv["model"], "|")
 		spec := strings.Split(kv["spec"], "|")
@@ -483,7 +541,14 @@ func runC17(c *Ctx) {
 					Detail: fmt.Sprintf("op #%d %s", j, o.token())})
 			}
 			if impl[j] != spec[j] {
-				c.Find(Finding{Kind: "oracle", Class: classify(ops, j, impl[j]), Case: lines[i], Impl: impl[j], Model: model[j], Spec: spec[j],
+				// the property speaks about resolution (Match, GetOrCreate); what Save/Del/Get/All themselves
+				// answer is C18's subject: here a difference only says that the table the lookups run on
+				// is not the one the specification was given
+				kind := "oracle"
+				if o.kind != 'm' && o.kind != 'c' {
+					kind = "corr"
+				}
+				c.Find(Finding{Kind: kind, Class: classify(ops, j, impl[j]), Case: lines[i], Impl: impl[j], Model: model[j], Spec: spec[j],
 					Detail: fmt.Sprintf("op #%d %s (%q)", j, o.token(), o.pattern)})
 			}
 		}
